@@ -166,4 +166,45 @@ error carrying the same status (and body). -/
 def specTsClientErr (status : Nat) (hasViolations : Bool) : TsClientErr :=
   if status = 400 ∧ hasViolations = true then .validation else .api status
 
+/-! ### the emitted TypeScript server (a route's `catch` block) -/
+
+/-- what was thrown inside a route of the emitted TS server. -/
+inductive TsSrvSource
+  | headerViolation     -- `validateHeaders` threw a ValidationError (missing / malformed header)
+  | requestViolation    -- `options.validateRequest` returned violations
+  | handlerValidation   -- the handler itself threw a ValidationError
+  | handlerError        -- the handler threw anything else
+deriving DecidableEq, Repr
+
+def TsSrvSource.isValidation : TsSrvSource → Bool
+  | .handlerError => false
+  | _ => true
+
+/-- how the route answers. -/
+inductive TsSrvAnswer
+  | violations400   -- 400 {violations:[…]} listing the thrown violations
+  | hookResponse    -- whatever `options.onError` returned
+  | message500      -- 500 {message}
+deriving DecidableEq, Repr
+
+/-- the catch block, over the REGENERATED order of its branches: the first branch that applies
+answers (`hookAnswers`: an `onError` hook is configured and returns a Response). -/
+def tsServerAnswerIn (order : List String) (src : TsSrvSource) (hookAnswers : Bool) : TsSrvAnswer :=
+  match order with
+  | [] => .message500
+  | b :: rest =>
+    if b == "validation" && src.isValidation then .violations400
+    else if b == "hook" && hookAnswers then .hookResponse
+    else if b == "default" then .message500
+    else tsServerAnswerIn rest src hookAnswers
+
+def tsServerAnswer (src : TsSrvSource) (hookAnswers : Bool) : TsSrvAnswer :=
+  tsServerAnswerIn Gen.PropNames.tsServerCatchOrder src hookAnswers
+
+/-- what the property asks: a validation failure is a 400 listing the violations whatever hook is
+configured; any other error goes to the hook when there is one and is a 500 carrying the message
+otherwise. -/
+def specTsServerAnswer (src : TsSrvSource) (hookAnswers : Bool) : TsSrvAnswer :=
+  if src.isValidation then .violations400 else if hookAnswers then .hookResponse else .message500
+
 end Sebuf.Errors
